@@ -1111,3 +1111,62 @@ PROPS["C16"] = Prop(
         ("does not end", "iterator-does-not-end"),
     ],
 )
+
+
+# C14 (d): partition index of the counter (extracted expressions)
+def c14d_extract(inj):
+    import inject as _inject
+    src = open(_os.path.join(inj.ws, "counter/src/lib.rs")).read()
+
+    def need(rx, what, flags=0):
+        m = _re.search(rx, src, flags)
+        if not m:
+            raise _inject.InjectError("C14(d): cannot extract %s from counter/src/lib.rs" % what)
+        return m.group(1).strip()
+
+    tlen = need(r"let counts_table: Vec<SccMap<Kmer, u32>> = vec!\[SccMap::new\(\); ([^\]]+)\];", "the partition table length")
+    idx = need(r"\.get_unchecked\(((?:[^()]|\([^()]*\))+)\)\s*\n?\s*\.entry\(min_mer\)", "the partition index", _re.S)
+    dsz = need(r"let data_size_gb = ([^;]+);", "data_size_gb")
+    npt = need(r"let n_parts = (max\(.*?\));\s*\n\s*self\.n_parts = n_parts;", "the n_parts computation", _re.S)
+    code = """fn table_len_of(me: &Me) -> usize {
+    %s
+}
+fn index_of(me: &Me, min_mer: u64) -> usize {
+    %s
+}
+fn n_parts_of(me: &Me, stats: &Stats) -> u64 {
+    let data_size_gb = %s;
+    %s
+}""" % (tlen.replace("self.", "me."), idx.replace("self.", "me."), dsz.replace("self.", "me."), npt.replace("self.", "me."))
+    inj.extra_evidence["c14d_extracted_expressions"] = {"table_len": tlen, "index": " ".join(idx.split()), "data_size_gb": dsz, "n_parts": " ".join(npt.split())}
+    return code
+
+
+_c14_extract_c = c14_extract
+
+
+def c14_extract(inj, insts):  # noqa: F811
+    gen = _c14_extract_c(inj, insts)
+    gen["C14D"] = c14d_extract(inj)
+    return gen
+
+
+_c14_instances_abc = c14_instances
+
+
+def c14_instances(tier, seed):  # noqa: F811
+    out = _c14_instances_abc(tier, seed)
+    out.append(Inst("c14d_partition_index", "verif_c14d", "counter", "c14d_body()", 4,
+                    {"clause": "(d) partition index of the k-mer counter < partition table length (extracted expressions: table length, index, n_parts of init())",
+                     "k-mer": "symbolic u64", "threads": "symbolic 1..=2^16", "debug": "symbolic", "input bases": "symbolic 0..=2^50",
+                     "memory ceiling": "symbolic n/16 GB, n in 1..=2^24"}, core=True, timeout=900, cost=20.0))
+    return out
+
+
+PROPS["C14"].modules.append(Module("counter", "verif_c14d", "harness/counter/verif_c14d.rs"))
+PROPS["C14"].generate = c14_extract
+PROPS["C14"]._instances = c14_instances
+PROPS["C14"].roles += [("zero partitions", "counter-zero-partitions"), ("outside the partition table", "counter-partition-index")]
+PROPS["C14"].functions.append("counter::CountComputer: partition table length, partition index and init()'s n_parts computation - extracted expressions")
+PROPS["C14"].outside = [o for o in PROPS["C14"].outside if not o.startswith("the partition index")] + [
+    "(d) is decided on expressions extracted from counter/src/lib.rs, not on count_chunk itself (rayon workers, scc map, file I/O); thread count 0 is excluded (no worker, the index is never evaluated)"]
